@@ -1,6 +1,9 @@
 package c04
 
-import "pgregory.net/rapid"
+import (
+	"pgregory.net/rapid"
+	"verif/busmodel"
+)
 
 var filters = []string{"", "", "all", "none", "even", "odd"}
 
@@ -17,6 +20,9 @@ func genH(t *rapid.T, onceBias int) H {
 
 func GenSeq(t *rapid.T) *SeqCase {
 	c := &SeqCase{}
+	if rapid.Bool().Draw(t, "hasAmbient") {
+		c.Ambient = rapid.IntRange(0, busmodel.AmbAll).Draw(t, "ambient")
+	}
 	nh := rapid.IntRange(1, 6).Draw(t, "nh")
 	for i := 0; i < nh; i++ {
 		c.Handlers = append(c.Handlers, genH(t, 3))
@@ -50,6 +56,9 @@ func GenSeq(t *rapid.T) *SeqCase {
 
 func GenConc(t *rapid.T) *ConcCase {
 	c := &ConcCase{Rounds: 20}
+	if rapid.Bool().Draw(t, "hasAmbient") {
+		c.Ambient = rapid.IntRange(0, busmodel.AmbAll).Draw(t, "ambient")
+	}
 	nh := rapid.IntRange(1, 4).Draw(t, "nh")
 	for i := 0; i < nh; i++ {
 		c.Handlers = append(c.Handlers, genH(t, 5))
